@@ -162,6 +162,11 @@ PObj(pi) ==
          UNION {Observe(o) : o \in BaseObjs}
     [] pi = 2 ->
          UNION {Observe(Bin("+", a, b)) : a \in BaseObjs, b \in ExtObjs}
+    [] pi = 3 ->
+         \* an object local shared by a computed-name field and ordinary fields (evaluated once per object)
+         UNION {{o, Dot(o, "a"), ArrE(<<Dot(o, "a"), Dot(o, "c")>>)} : o \in
+           {ObjE(<<OLoc("l", x), FdC(ne, "d", V("l")), Fd("b", v, V("l")), Fd("c", "d", Bin("+", V("l"), V("l")))>>) :
+              x \in {N(5), ArrE(<<N(1)>>), Bin("+", N(1), N(1))}, ne \in {S(<<97>>), Bin("+", S(<<97>>), S(<<>>))}, v \in {"d", "h"}}}
 
 -----------------------------------------------------------------------------
 (* comp: array and object comprehensions                                     *)
@@ -198,6 +203,11 @@ PComp(pi) ==
                  g \in {Fn(<<Pm("i")>>, Bin("*", V("i"), V("i"))), Fn(<<Pm("i")>>, ErrE), N(1)}}
     [] pi = 11 ->
          {Idx(Std("makeArray", <<N(3), Fn(<<Pm("i")>>, If(Bin("==", V("i"), N(1)), ErrE, V("i")))>>), N(k)) : k \in 0..2}
+    [] pi = 12 ->
+         \* std.sort: arrays of at most one element are returned untouched (upstream definition)
+         UNION {{Std("sort", <<a>>), Std("length", <<Std("sort", <<a>>)>>), Idx(Std("sort", <<a>>), N(0))} :
+                 a \in {ArrE(<<>>), ArrE(<<ErrE>>), ArrE(<<N(2), N(1), N(3)>>), ArrE(<<N(1), ErrE>>), ArrE(<<N(7)>>),
+                        ArrE(<<N(2), N(2), N(1)>>), ArrE(<<S(<<97>>), N(1)>>), N(1)}}
 
 -----------------------------------------------------------------------------
 NParts ==
@@ -205,8 +215,8 @@ NParts ==
     [] Slice = "str" -> 5
     [] Slice = "lazy" -> 5
     [] Slice = "func" -> 7
-    [] Slice = "obj" -> 2
-    [] Slice = "comp" -> 11
+    [] Slice = "obj" -> 3
+    [] Slice = "comp" -> 12
 
 Part(pi) ==
   CASE Slice = "arith" -> PArith(pi)
